@@ -222,7 +222,7 @@ def agree_spec(c, out, spec):
 def nontrivial_key(c, out):
     if is_err(out):
         return ['err', c['fid'], c['column'], c['match']]
-    tuples = out['tuples'] if isinstance(out, dict) else out
+    tuples = out.get('tuples') if isinstance(out, dict) else out     # `aligned` answers a dict WITHOUT 'tuples' when the rows are not aligned
     sizes = [len(t['rows']) for t in c['db']['tabs']]
     if isinstance(tuples, list) and 0 < len(tuples) < max(sizes):
         return [c['fid'], c['column'], c['match'], c['how']]
@@ -239,7 +239,7 @@ def distribution(recs):
         cols[c['column']] = cols.get(c['column'], 0) + 1
         outs[o if is_err(o) else 'ok'] = outs.get(o if is_err(o) else 'ok', 0) + 1
         if not is_err(o):
-            t = o['tuples'] if isinstance(o, dict) else o
+            t = o.get('tuples') if isinstance(o, dict) else o
             if isinstance(t, list):
                 m = min(len(x['rows']) for x in c['db']['tabs'])
                 frac['empty' if not t else 'everything' if len(t) >= m else 'proper subset'] += 1
